@@ -1160,7 +1160,7 @@ def gen_bt_elem_sites(repo):
     functions; any other way of filling `self._array` is untranslatable."""
     ast = T.ast
     m = T.Module(f"{repo}/src/nitypes/bintime/_timedelta_array.py", "Gen.BtElemSites")
-    stores, loads, dtypes = [], [], []
+    stores, loads, dtypes, pickles = [], [], [], []
 
     def chain_of(e, where, mod):
         """`x.m1().m2()` -> (x, [m1, m2])"""
@@ -1246,6 +1246,27 @@ def gen_bt_elem_sites(repo):
                     if got != want:
                         raise T.Untranslatable(f"{where}: decoding is {got}, expected {want}", st, mod.path)
                     loads.append((cls, f.name, ["item", "from_cvi", "from_tuple"]))
+        # pickling and equality: `__reduce__` re-enters the constructor with the decoded elements (iteration is the MutableSequence
+        # mixin over `__getitem__`: the class must not define `__iter__`), `__eq__` compares the records
+        own = {f.name for f in c.body if isinstance(f, ast.FunctionDef)}
+        if "__iter__" in own or [ast.unparse(b) for b in c.bases] != [f"MutableSequence[{elem}]"]:
+            raise T.Untranslatable(f"{cls}: iteration is no longer the MutableSequence mixin over __getitem__", c, mod.path)
+
+        def stmts_of(name):
+            fs = [f for f in c.body if isinstance(f, ast.FunctionDef) and f.name == name and not any(ast.unparse(d) == "overload" for d in f.decorator_list)]
+            if len(fs) != 1:
+                raise T.Untranslatable(f"{cls}.{name}: expected exactly one definition", c, mod.path)
+            return fs[0], [ast.unparse(x) for x in fs[0].body if not (isinstance(x, ast.Expr) and isinstance(x.value, ast.Constant))]
+        fr, rb = stmts_of("__reduce__")
+        if rb != ["return (self.__class__, (list(iter(self)),))"]:
+            raise T.Untranslatable(f"{cls}.__reduce__: {rb}", fr, mod.path)
+        fe, eb = stmts_of("__eq__")
+        if eb != [f"if not isinstance(other, {cls}):\n    return NotImplemented", "return np.array_equal(self._array, other._array)"]:
+            raise T.Untranslatable(f"{cls}.__eq__: {eb}", fe, mod.path)
+        fl, lb = stmts_of("__len__")
+        if lb != ["return len(self._array)"]:
+            raise T.Untranslatable(f"{cls}.__len__: {lb}", fl, mod.path)
+        pickles.append((cls, "ctor(list(iter(self)))", "records"))
         # nothing else may produce elements of the class from records
         for n in ast.walk(c):
             if isinstance(n, ast.Call) and ast.unparse(n.func) in (f"{elem}.from_tuple", f"{elem}.from_ticks", f"{elem}", "TimeValueTuple", "TimeValueTuple.from_cvi"):
@@ -1263,6 +1284,10 @@ def gen_bt_elem_sites(repo):
     m.out.append("/-- generated: every place that turns a record back into an element - (class, method, decoding chain) -/")
     m.out.append("@[pygen] def load_sites : List (String × String × List String) := [\n  "
                  + ",\n  ".join(f"({json.dumps(a)}, {json.dumps(b)}, {lst(ch)})" for a, b, ch in loads) + "]")
+    m.out.append("")
+    m.out.append("/-- generated: (class, what `__reduce__` rebuilds the array from, what `__eq__` compares) -/")
+    m.out.append("@[pygen] def pickle_eq : List (String × String × String) := ["
+                 + ", ".join(f"({json.dumps(a)}, {json.dumps(b)}, {json.dumps(d)})" for a, b, d in pickles) + "]")
     m.out.append("")
     m.out.append("/-- generated: the record dtype each constructor hands to NumPy -/")
     m.out.append("@[pygen] def record_dtypes : List (String × String × String) := ["
